@@ -15,7 +15,7 @@ BUILTIN_NAMES = {
 DSL_NAMES = {
     "is_int", "is_bool", "is_intlike", "is_float", "is_num", "is_str", "is_none", "implies", "iff", "forall_range",
     "exists_range", "forall_in", "type_is", "pow2", "bit", "same", "old", "fresh", "has_key", "dict_lookup",
-    "seq_eq", "is_callable", "str_len", "range_len", "singleton",
+    "seq_eq", "is_callable", "str_len", "range_len", "singleton", "forall_keys",
 }
 
 
@@ -442,13 +442,23 @@ def _seq_eq(eng, a, b, node, frame):
         return tv_bool(z3.And(cs) if cs else z3.BoolVal(True))
     if "seq_eq" in eng.cs.specs:
         return eng.call_spec("seq_eq", [eng.to_tv(a), eng.to_tv(b)])
-    raise _U("sequence equality needs spec seq_eq")
+    return _opaque_eq(eng, a, b)
 
 
 def _dict_eq(eng, a, b, node, frame):
     if "dict_eq" in eng.cs.specs:
         return eng.call_spec("dict_eq", [eng.to_tv(a), eng.to_tv(b)])
-    raise _U("dict equality needs spec dict_eq")
+    return _opaque_eq(eng, a, b)
+
+
+OPAQUE_EQ = z3.Function("container_eq", S.Val, S.Val, z3.BoolSort())
+
+
+def _opaque_eq(eng, a, b):
+    """== between containers whose contents are not modelled: an uninterpreted predicate, reflexive."""
+    x, y = eng.to_tv(a).val(), eng.to_tv(b).val()
+    eng.run.assume(z3.Implies(x == y, OPAQUE_EQ(x, y)))
+    return tv_bool(OPAQUE_EQ(x, y))
 
 
 def compare(eng, op, a, b, node, frame):
@@ -1122,7 +1132,7 @@ def eval_call(eng, node, frame):
     if isinstance(fn, ast.Attribute) and isinstance(fn.value, ast.Call) and isinstance(fn.value.func, ast.Name) and fn.value.func.id == "super":
         return call_super(eng, fn.attr, node, frame)
     # lazily evaluated contract helpers
-    if isinstance(fn, ast.Name) and isinstance(frame_module(frame), tuple) and fn.id in ("old", "forall_range", "exists_range", "forall_in", "implies"):
+    if isinstance(fn, ast.Name) and isinstance(frame_module(frame), tuple) and fn.id in ("old", "forall_range", "exists_range", "forall_in", "implies", "forall_keys"):
         return dsl_lazy(eng, fn.id, node, frame)
     callee = eng.eval(fn, frame)
     star_sym = None
@@ -2378,6 +2388,18 @@ def dsl_lazy(eng, name, node, frame):
         if name == "forall_range":
             return tv_bool(z3.ForAll([k], z3.Implies(rng, body), patterns=pats) if pats else z3.ForAll([k], z3.Implies(rng, body)))
         return tv_bool(z3.Exists([k], z3.And(rng, body)))
+    if name == "forall_keys":
+        d = eng.to_tv(eng.eval(node.args[0], frame))
+        lam = node.args[1]
+        dv = DictView(eng, d)
+        x = z3.Const(run.fresh_name("q_key"), S.Val)
+        f2 = Frame({lam.args.args[0].arg: tv_val(x)}, parent=frame)
+        run.cond_stack.append(dv.has(x))
+        try:
+            body = eng.truth_of(eng.eval(lam.body, f2))
+        finally:
+            run.cond_stack.pop()
+        return tv_bool(z3.ForAll([x], z3.Implies(dv.has(x), body), patterns=[dv.get(x)]))
     if name == "forall_in":
         seq = eng.eval(node.args[0], frame)
         lam = node.args[1]
